@@ -50,9 +50,29 @@ META = {'design_ref': 'DESIGN.md section 7 / C02',
                'close is never continued on the next connection (its stream starts empty; witness C02_wire_example_connection2: the operation is re-encoded '
                'from its first byte). With the per-kind theorems (C02_all_kinds, C02_spec_decode_on_stream, C02_stream_decodes): if every (packet, resolution) '
                'an encoder was constructed for on the connection satisfies ValidC2S.valid, the specification decoder, iterated, reads the completed part of '
-               'the stream back as exactly the canonical forms of those packets, in order, nothing left over (C02_instance_wire_decodes). NOT proved: that '
-               'validation implies ValidC2S.valid (C16 proves soundness against the independent predicate conforms, not against valid; the CONNECT is never '
-               'validated in the crate, D17), so validity of the seated packets is a hypothesis of the decoding corollary; the stream theorem itself has no '
+               'the stream back as exactly the canonical forms of those packets, in order, nothing left over (C02_instance_wire_decodes). That premise is '
+               'DISCHARGED (ValidateProofs/Bridge*.v, EngineProofs/WireValid*.v): packet level, C02_bridge_user - a PUBLISH / SUBSCRIBE / UNSUBSCRIBE / '
+               'DISCONNECT (both versions) that is a value of the Rust packet type, whose erased form (packet id 0, DUP 0) passed the submission-time '
+               'validator, that passed the send-time validator with its resolution, is shorter than 4 GiB, carries an engine-allocated packet id and a '
+               "resolver's resolution satisfies ValidC2S.valid; every premise has a necessity witness (the send-time validator alone accepts an empty "
+               'topic without alias, U+0000 in the topic, a subscription identifier 0, an empty SUBSCRIBE / UNSUBSCRIBE: '
+               'C02_send_time_check_alone_insufficient); the acks the engine builds (default_ack pid) are valid iff pid is 1..65535, PINGREQ always; the '
+               'CONNECT of a configuration is valid IFF the configuration satisfies the explicit predicate connect_checked (C02_connect_valid_iff, one '
+               'witness configuration per clause; connect options are validated nowhere in the crate: D17 / D25 / D29). Run level, '
+               'C02_instance_wire_wellformed: for every history with ok_cfg, ok_event, sub_ev (every submitted packet is one of the four user kinds, '
+               'typed, accepted by validate_packet_outbound and shorter than 4 GiB; incoming data are octets) and connect_opts_ok (the configuration '
+               'satisfies connect_checked for every client id the CONNECT can carry), EVERY (packet, resolution) an encoder is constructed for is '
+               'ValidC2S.valid, hence the completed part of every connection\'s byte stream decodes, by the specification decoder, to exactly the '
+               'canonical seated packets. Proof: an invariant over the operation table (every operation holds a validated submission up to packet id / '
+               'DUP, a valid CONNECT, a default ack with a real packet id, or PINGREQ; PUBREL slots hold default acks; packet-id cursor, negotiated '
+               'client id / topic alias maximum, decoder buffer and outbound resolver within range) preserved by every event - the close needs the '
+               'well-formedness invariant (DUP only on QoS >= 1) -, the send-time validator accepting the very packet the encoder is constructed for, '
+               'decoder facts (16-bit fields of decoded packets below 65536 on octets, assigned client id a valid string: C02_decoded_packets_in_range) '
+               'and the resolver bound (alias 1..65535, none in 3.1.1: C02_resolver_bound). Both non-library premises are necessary at run level, by '
+               'computation: an unvalidated empty-topic PUBLISH is put on the wire and rejected by the specification decoder '
+               '(C02_unvalidated_submission_reaches_the_wire); 3.1.1 options with a password and no user name give an invalid CONNECT '
+               '(C02_unchecked_connect_options_reach_the_wire). Remaining hypotheses that are not checks of the library: the type invariants (typed: '
+               'String = UTF-8, enum ranges), the 4 GiB bound (u32 length arithmetic), connect_opts_ok. The stream theorem itself has no '
                'such hypothesis. The stream theorem is about the model the correspondence check executes; that the implementation emits the same bytes stays '
                "the lock-step tie (field out) and monitor 201.",
  'technique': 'machine-checked proof in Coq (round-trip lemmas per wire primitive composed per packet; induction over step lists) + differential '
